@@ -26,7 +26,9 @@ Inductive kind :=
 | KLog (l : level)          (* <logger>.<level>(...)                                       *)
 | KRaise (pk : bool)        (* raise C(...);  pk = C is an exception class defined by PyKMIP *)
 | KResultMsg                (* a result message handed to the client (engine/session)       *)
-| KPrint.                   (* print / warnings.warn / traceback.print_* / sys.std*.write   *)
+| KPrint                    (* print / warnings.warn / traceback.print_* / sys.std*.write   *)
+| KDead.                    (* a site inside a debug helper that nothing in the package references
+                               (the translator re-checks "unreferenced" on every run)        *)
 
 Inductive sclass :=
 | SLit (s : string)         (* literal text                                                  *)
@@ -97,6 +99,7 @@ Definition is_foreign (f : frag) : bool := match f with FArg AExcForeign => true
 Definition observable (k : kind) : bool :=
   match k with
   | KLog LDebug => false
+  | KDead => false
   | _ => true     (* INFO+ records, every raise (its text can reach logger.exception / a result message),
                      result messages, prints *)
   end.
